@@ -32,12 +32,19 @@ Proof.
   pose proof (Z.mod_pos_bound z two32 ltac:(unfold two32; lia)). unfold two32 in *. lia.
 Qed.
 
+Lemma m_get_bind_ext : forall B k (f g : val -> M B),
+  (forall v s', f v s' = g v s') -> forall s, bind (m_get k) f s = bind (m_get k) g s.
+Proof. intros; apply bind_ext; assumption. Qed.
+
 Lemma m_len_ext : forall B (f g : Z -> M B),
   (forall len, 0 <= len < 2 ^ 53 -> forall s, f len s = g len s) -> forall s, bind m_len f s = bind m_len g s.
 Proof.
-  intros B f g H s. unfold m_len, bind, m_get.
-  set (s1 := if s_lg s then _ else s).
-  destruct (to_uint32 (get (s_o s1) KLen)) as [n | ] eqn:E; unfold opt_m, ret, throw; [ | reflexivity].
+  intros B f g H s.
+  pose (s1 := if s_lg s then mkS (s_o s) (s_log s ++ [[VNum 9]]) (s_cb s) true else s).
+  assert (E0 : m_len s = bind (m_get KLen) (fun v => opt_m (to_uint32 v)) s1) by reflexivity.
+  unfold bind at 1 2. rewrite E0. unfold bind.
+  destruct (m_get KLen s1) as [v s2 | c s2]; [ | reflexivity].
+  destruct (to_uint32 v) as [n | ] eqn:E; unfold opt_m, ret, throw; [ | reflexivity].
   apply H. eapply to_uint32_range. exact E.
 Qed.
 
